@@ -87,4 +87,28 @@ DIJKSTRA = dict(
     extra_params={"dijkstra": [("ops", "HeapOps H")]},
 )
 
-JOBS = {"shortest": SHORTEST, "dijkstra_relax": RELAX, "dijkstra": DIJKSTRA}
+# ---- johnsons(n, D, es, eweights) and the top-level dijkstra(s, n, d, es, eweights): fresh node vector `std::vector<Node<T>> vs(n)`,
+# then CALLS of the generated dijkstra_init / dijkstra (in/out arguments `vs`, `D[k]` written back; the callee's fuel is passed on)
+_SHIM3 = """#include "libcola/shortest_paths.h"
+template void shortest_paths::johnsons<double>(unsigned const, double**, std::vector<shortest_paths::Edge> const&, std::valarray<double> const&);
+template void shortest_paths::dijkstra<double>(unsigned const, unsigned const, double*, std::vector<shortest_paths::Edge> const&, std::valarray<double> const&);
+"""
+JOHNSONS = dict(
+    src="cola/libcola/shortest_paths.h", shim=_SHIM3,
+    ns="AdaptaVerif.Gen.JohnsonsK", out="lean/AdaptaVerif/Gen/JohnsonsK.lean",
+    imports=["AdaptaVerif.Gen.ShortestPathsK", "AdaptaVerif.Gen.DijkstraK"],
+    opens=["AdaptaVerif.Model.ShortestPaths (Dist oadd omin)", "AdaptaVerif.Model.PairingHeap (ltDist)", "AdaptaVerif.Gen.KeysShortest",
+           "AdaptaVerif.Gen.ShortestPathsK (dijkstra_init dijkstra_init_pre)", "AdaptaVerif.Gen.DijkstraK (dijkstra dijkstra_pre)"],
+    known_from=[SHORTEST, DIJKSTRA],
+    functions=["johnsons", "dijkstra"], lean_names={"dijkstra": "dijkstraTop"},
+    sig_contains={"dijkstra": "(const unsigned int, const unsigned int, double *"},
+    types={"double": "Dist"}, num={"Dist": _DIST2},
+    qual_types={"std::vector<Node<double>>": ("Array NodeK", "state"), "double *": ("Array Dist", "state"),
+                "double **": ("Array (Array Dist)", "state"),
+                "std::vector<Edge>": ("List (Nat × Nat)", "val"), "std::valarray<double>": ("List Dist", "val")},
+    sized_ctors={"std::vector<Node<double>>": ("(Array.replicate {0} (default : NodeK))", "Array NodeK")},
+    type_params=["H"],
+    extra_params={"johnsons": [("ops", "HeapOps H")], "dijkstraTop": [("ops", "HeapOps H")]},
+)
+
+JOBS = {"shortest": SHORTEST, "dijkstra_relax": RELAX, "dijkstra": DIJKSTRA, "johnsons": JOHNSONS}
